@@ -323,12 +323,11 @@ func MergeHeaders(src []*Header) (h *Header, reflinks [][]*Reference, err error)
 			}
 			if r.owner != h {
 				// r was not actually added, so use the ref
-				// that h owns.
-				for _, hr := range h.refs {
-					if equalRefs(r, hr) {
-						r = hr
-						break
-					}
+				// that h owns: AddReference has accepted r
+				// as a description of the reference h holds
+				// under that name.
+				if held, ok := h.seenRefs[r.name]; ok {
+					r = h.refs[held]
 				}
 			}
 			links[id] = r
